@@ -94,9 +94,13 @@ def audit_sources():
 def proofs(pid, mod):
     """Returns dict(obligations, discharged, theorems, axioms, errors)."""
     res = {"obligations": 0, "discharged": 0, "theorems": [], "axioms": {}, "errors": []}
-    r = run([os.path.join(V, "tools", "build_model.sh")])
-    if r.returncode != 0:
-        res["errors"].append("coq build failed: " + r.stdout[-2000:])
+    comps = sorted({p.component for p in mod.PARTS})
+    r = run([os.path.join(V, "tools", "build_model.sh")] + comps)
+    res["build_status"] = r.returncode
+    res["build_log"] = r.stdout[-3000:]
+    for c in comps:
+        if not os.path.exists(os.path.join(W, "bin", "model_" + c)):
+            res["errors"].append(f"model component {c} does not build: " + r.stdout[-1500:])
     props_file = os.path.join(V, "coq", "theories", "Props", pid + ".v")
     if not os.path.exists(props_file):
         res["errors"].append("missing " + props_file)
@@ -108,6 +112,8 @@ def proofs(pid, mod):
     bad = audit_sources()
     if bad:
         res["errors"].append("forbidden commands: " + "; ".join(bad[:10]))
+    if not os.path.exists(os.path.join(V, "coq", "theories", "Props", pid + ".vo")):
+        res["errors"].append(f"Props/{pid}.v (or a file it depends on) does not compile: " + r.stdout[-1500:])
     if res["errors"]:
         return res
     # Print Assumptions for every theorem, in a throw-away file that imports the compiled Props
@@ -183,7 +189,7 @@ def run_model(part, impl_file, tag):
     d = os.path.join(W, "run", tag)
     fout = os.path.join(d, "model.jsonl")
     with open(impl_file) as fin, open(fout, "w") as fo:
-        r = subprocess.run([os.path.join(W, "bin", "ccvmodel"), part.component], stdin=fin, stdout=fo, stderr=subprocess.PIPE, text=True)
+        r = subprocess.run([os.path.join(W, "bin", "model_" + part.component)], stdin=fin, stdout=fo, stderr=subprocess.PIPE, text=True)
     if r.returncode != 0:
         raise RuntimeError("model driver failed: " + r.stderr[-2000:])
     model = {}
@@ -263,7 +269,7 @@ def main():
     os.makedirs(os.path.join(V, "evidence"), exist_ok=True)
 
     pr = proofs(pid, mod)
-    if any("coq build failed" in e for e in pr["errors"]) and not os.path.exists(os.path.join(W, "bin", "ccvmodel")):
+    if any("does not build" in e for e in pr["errors"]):
         log("\n".join(pr["errors"]))
         return 2
 
